@@ -145,7 +145,11 @@ def lower_socket(trace, enc_of=None, blockers=()):
             if ev.get("who") == "c":
                 out.append({"e": "notify", "t": t, "connected": ev["connected"]})
         elif e == "unhandled":
-            out.append({"e": "unhandled", "t": t})
+            # An injected subscriber failure that asyncio itself reports ("Task exception was never
+            # retrieved" for a callback task nobody awaited any more) is the user's exception, not
+            # one of the client's tasks failing.
+            if not (ev.get("source") == "loop" and ev.get("exc") == "InjectedSubscriberFailure"):
+                out.append({"e": "unhandled", "t": t})
         elif e == "quiesce":
             out.append({"e": "quiesce", "t": t})
         elif e == "mark":
